@@ -509,7 +509,8 @@ def strat_blocks(draw, tier):
             s["args"] = dict((k, draw(pool[k])) for k in draw(st.sets(
                 st.sampled_from(sorted(pool)), max_size=4)))
         elif kind == "app":
-            s["app_id"] = draw(st.integers(1, 255))
+            s["app_id"] = draw(st.one_of(st.integers(0, 255),
+                                         st.sampled_from([0, 1, 255])))
             s["style"] = draw(st.sampled_from(["pos", "kw", "ctx"]))
         elif kind == "raise":
             s["levels"] = draw(st.integers(1, 3))
